@@ -558,8 +558,10 @@ func (r *subrunner) do(act action) error {
 			return fmt.Errorf("failed computing hash: %w", err)
 		}
 		fmt.Fprintf(h, "vetout %q %x\n", dep.Package.PkgPath, vetxHash)
+		verifEvent("keydep", a, dep, vetxHash)
 	}
 	a.hash = cache.ActionID(h.Sum())
+	verifEvent("key", a, hashCfg, r.analyzerNames, r.GoVersion)
 
 	// try to fetch hashed data
 	ids := make([]cache.ActionID, 0, 2)
@@ -571,6 +573,7 @@ func (r *subrunner) do(act action) error {
 		}
 	}
 	if err := getCachedFiles(r.cache, ids, []*string{&a.vetx, &a.results, &a.testData}); err != nil {
+		verifEvent("miss", a)
 		result, err := r.doUncached(a)
 		if err != nil {
 			return err
@@ -633,6 +636,7 @@ func (r *subrunner) do(act action) error {
 			}
 		}
 	}
+	verifEvent("cache_end", a)
 	return nil
 }
 
@@ -648,6 +652,7 @@ func (r *Runner) TotalWorkers() int {
 
 func (r *Runner) writeCacheReader(a *packageAction, kind string, rs io.ReadSeeker) (string, error) {
 	h := cache.Subkey(a.hash, kind)
+	verifEvent("store", a, kind, h)
 	out, _, err := r.cache.Put(h, rs)
 	if err != nil {
 		return "", fmt.Errorf("failed caching data: %w", err)
@@ -700,10 +705,12 @@ func (r *subrunner) doUncached(a *packageAction) (packageActionResult, error) {
 			a.errors = append(a.errors, err)
 		}
 		a.failed = true
+		verifEvent("loadfail", a, len(pkg.Errors))
 		return packageActionResult{}, nil
 	}
 
 	if len(pkg.Syntax) == 0 && pkg.PkgPath != "unsafe" {
+		verifEvent("nosyntax", a)
 		return packageActionResult{lpkg: pkg, skipped: true}, nil
 	}
 
@@ -787,12 +794,16 @@ func (r *Runner) loadFacts(root *types.Package, dep *packageAction, objFacts map
 
 func genericHandle(a action, root action, queue chan action, sem *tsync.Semaphore, exec func(a action) error) {
 	if a == root {
+		verifEvent("rootclose", a, sem != nil)
 		close(queue)
 		if sem != nil {
+			verifEvent("release", a)
 			sem.Release()
 		}
+		verifEvent("done", a)
 		return
 	}
+	verifEvent("start", a, sem != nil)
 	if !a.IsFailed() {
 		// the action may have already been marked as failed during
 		// construction of the action graph, for example because of
@@ -804,6 +815,7 @@ func genericHandle(a action, root action, queue chan action, sem *tsync.Semaphor
 				// failed and bail. We don't need to record an error for
 				// this package, the relevant error will have been
 				// reported by the first package in the chain that failed.
+				verifEvent("depfailed", a, dep)
 				a.MarkFailed()
 				break
 			}
@@ -811,20 +823,27 @@ func genericHandle(a action, root action, queue chan action, sem *tsync.Semaphor
 	}
 
 	if !a.IsFailed() {
+		verifEvent("exec_begin", a)
 		if err := exec(a); err != nil {
+			verifEvent("exec_err", a, err)
 			a.MarkFailed()
 			a.AddError(err)
 		}
 	}
+	verifEvent("exec_end", a)
 	if sem != nil {
+		verifEvent("release", a)
 		sem.Release()
 	}
 
 	for _, t := range a.Triggers() {
+		verifEvent("dec", a, t)
 		if t.DecrementPending() {
+			verifEvent("enqueue", a, t)
 			queue <- t
 		}
 	}
+	verifEvent("done", a)
 }
 
 type analyzerRunner struct {
@@ -1031,6 +1050,7 @@ func (r *subrunner) runAnalyzers(pkgAct *packageAction, pkg *loader.Package) (an
 		a.triggers = append(a.triggers, root)
 	}
 	root.pending = uint32(len(root.deps))
+	verifEvent("abegin", pkgAct, root, all)
 
 	ar := &analyzerRunner{
 		pkg:         pkg,
@@ -1042,6 +1062,7 @@ func (r *subrunner) runAnalyzers(pkgAct *packageAction, pkg *loader.Package) (an
 	queue := make(chan action, len(all))
 	for _, a := range all {
 		if len(a.Deps()) == 0 {
+			verifEvent("aenq0", a)
 			queue <- a
 		}
 	}
@@ -1050,10 +1071,13 @@ func (r *subrunner) runAnalyzers(pkgAct *packageAction, pkg *loader.Package) (an
 	// because we are analyzing a dependency but have no analyzers
 	// that produce facts.
 	if len(all) == 0 {
+		verifEvent("aclose0", root)
 		close(queue)
 	}
 	for item := range queue {
+		verifEvent("arecv", item)
 		b := r.semaphore.AcquireMaybe()
+		verifEvent("acquire_maybe", item, b)
 		if b {
 			go genericHandle(item, root, queue, &r.semaphore, ar.do)
 		} else {
@@ -1062,6 +1086,7 @@ func (r *subrunner) runAnalyzers(pkgAct *packageAction, pkg *loader.Package) (an
 			genericHandle(item, root, queue, nil, ar.do)
 		}
 	}
+	verifEvent("aclosed", root)
 
 	var unusedResult unused.Result
 	for _, a := range all {
@@ -1133,6 +1158,7 @@ func (r *subrunner) runAnalyzers(pkgAct *packageAction, pkg *loader.Package) (an
 		a := a.(*analyzerAction)
 		diags = append(diags, a.Diagnostics...)
 	}
+	verifEvent("collect", pkgAct, root, all, diags)
 	return analysisResult{
 		facts:       gobFacts,
 		testFacts:   testFacts,
@@ -1204,6 +1230,7 @@ func (r *Runner) Run(cfg *packages.Config, analyzers []*analysis.Analyzer, patte
 		a.triggers = append(a.triggers, root)
 	}
 	root.pending = uint32(len(root.deps))
+	verifEvent("run_begin", r, root, all)
 
 	queue := make(chan action)
 	r.Stats.setTotalPackages(len(all) - 1)
@@ -1212,19 +1239,24 @@ func (r *Runner) Run(cfg *packages.Config, analyzers []*analysis.Analyzer, patte
 	go func() {
 		for _, a := range all {
 			if len(a.Deps()) == 0 {
+				verifEvent("feed", a)
 				queue <- a
 			}
 		}
 	}()
 
 	sr := newSubrunner(r, analyzers)
+	verifEvent("analyzers", sr)
 	for item := range queue {
+		verifEvent("recv", item)
 		r.semaphore.Acquire()
+		verifEvent("acquire", item)
 		go genericHandle(item, root, queue, &r.semaphore, func(act action) error {
 			return sr.do(act)
 		})
 	}
 
+	verifEvent("closed", root)
 	r.Stats.setState(StateFinalizing)
 	out := make([]Result, 0, len(all))
 	for _, item := range all {
@@ -1242,5 +1274,6 @@ func (r *Runner) Run(cfg *packages.Config, analyzers []*analysis.Analyzer, patte
 			testData: item.testData,
 		})
 	}
+	verifEvent("finalize", root, out)
 	return out, nil
 }
